@@ -83,6 +83,8 @@ def evaluate(case):
     try:
         B = case["cfg"].get("bs", B0)
         alpha = dict(file_alphabet(B))
+        if case.get("leak"):
+            alpha = LEAK_FILES(B)
         paths = sorted(case["files"])
         spec = [E(p, "file", content=alpha[p]) for p in paths]
         lines = case["lines"]
@@ -91,7 +93,7 @@ def evaluate(case):
 
         def viol(fp, what):
             fl = packcheck.artefact_files(wd, limit=200000)
-            fl["case.json"] = json.dumps(dict(files=[p.decode("latin1") for p in paths], lines=lines, cfg=case["cfg"]), default=list)
+            fl["case.json"] = json.dumps(dict(files=[p.decode("latin1") for p in paths], lines=lines, cfg=case["cfg"], leak=bool(case.get("leak"))), default=list)
             return dict(status="violation", fp=fp, what=label + "\n" + what, files=fl)
         if r.timeout or r.crashed or r.rc != 0:
             return viol("C17|pack-fails|" + (r.crash_fingerprint() if r.crashed else "rc"), "rc=%d %s" % (r.rc, r.err.decode("latin1")[-800:]))
@@ -234,6 +236,26 @@ def cases(tier):
                 yield dict(files=files, lines=[l_gl], cfg=base_cfgs[0])
 
 
+def LEAK_FILES(B):
+    return {b"a/m": content_pattern("m", B) + b"tail of m " * 40, b"b/d1": b"D" * (2 * B) + b"same tail " * 30, b"g/x[12]": b"X" * B + b"x12 " * 50,
+            b"g/x1": b"Y" * B + b"x1 " * 60, b"g/x2": b"Z" * B + b"x2 " * 60}
+
+
+def leak_cases(tier):
+    """two- and three-line sort files in which a line WITHOUT a flag list follows a line with one (per-line state must not carry over): flags, glob mode"""
+    B = B0
+    files = tuple(sorted(LEAK_FILES(B)))
+    first = [(3, [f], "exact", "a/m") for f in FLAGS] + [(3, ["dont_compress", "dont_fragment"], "exact", "a/m"), (2, [], "glob", "a/*"), (2, [], "glob_no_path", "*m"),
+                                                           (2, ["nosparse"], "glob", "a/?")]
+    second = [(-5, [], "exact", "b/d1"), (-7, [], "exact", "g/x[12]"), (-6, [], "exact", "g/x1")]
+    for l1 in first:
+        for l2 in second:
+            yield dict(files=files, lines=[l1, l2], cfg=dict(comp="gzip", bs=B), leak=True)
+            for l3 in second:
+                if l3 is not l2 and tier != "quick":
+                    yield dict(files=files, lines=[l1, l2, l3], cfg=dict(comp="gzip", bs=B), leak=True)
+
+
 def main():
     global SCR
     cr = CheckRun("C17", "exploration", default_budget=(420, 3000))
@@ -247,7 +269,7 @@ def main():
                 case["lines"] = [tuple(l) for l in case["lines"]]
             print(evaluate(case))
             return 1
-        cl = list(cases(cr.tier))
+        cl = list(cases(cr.tier)) + list(leak_cases(cr.tier))
         cr.coverage["planned_cases"] = len(cl)
         n_eval = 0
         seen = set()
